@@ -38,7 +38,8 @@ def make_problem(seed, exact, nmax, N, kpm=False):
     cplx = rng.random() < 0.5
     nb = rng.randint(1, 3)
     sizes = [rng.randint(1, 2) for _ in range(nb)]
-    n = rng.randint(sum(sizes) + 1, max(sum(sizes) + 1, nmax))
+    lo = max(sum(sizes) + 1, 3 if kpm else 0)  # ARPACK (rescale -> eigsh, k=1) needs a sparse matrix of size >= 3
+    n = rng.randint(lo, max(lo, nmax))
     nexp = sum(sizes)
     # bases
     if exact:
@@ -83,8 +84,20 @@ def make_problem(seed, exact, nmax, N, kpm=False):
     fully = ()
     if rng.random() < 0.35:
         fully = tuple(sorted(rng.sample(range(nb), rng.randint(1, nb))))
+    kpm_opts = None
+    if kpm:
+        # explicit solver options of the KPM clause: a share of the cases passes exact eigenvectors of
+        # the implicit part as `auxiliary_vectors` (they must not change the result), optionally
+        # together with `max_moments` (large enough not to bind) and `eps`; one case in six relies on
+        # the default accuracy (no "atol" key)
+        nB = n - nexp
+        naux = 0 if rng.random() < 0.3 else rng.randint(1, nB)
+        kpm_opts = dict(aux_idx=sorted(rng.sample(range(nB), naux)),
+                        atol=None if rng.random() < 0.17 else 1e-4,
+                        max_moments=rng.choice([None, None, 200000, 1e6]),
+                        eps=rng.choice([None, None, 0.01, 0.05]))
     return dict(seed=seed, exact=exact, hermitian=hermitian, cplx=cplx, n=n, sizes=sizes, levels=levels, h0=h0, hs=hs,
-                R=R, Ri=Ri, N=N, fully=fully, kpm=kpm)
+                R=R, Ri=Ri, N=N, fully=fully, kpm=kpm, kpm_opts=kpm_opts)
 
 
 def dense(x, n_in=None):
@@ -126,15 +139,27 @@ def compare(p, tol_rel, kpm_atol=None):
     if p["fully"]:
         kw["fully_diagonalize"] = p["fully"]
     fails, compared = [], 0
-    with warnings.catch_warnings():
-        warnings.simplefilter("ignore")
+    solver_options = None
+    if p["kpm"]:
+        o = p.get("kpm_opts") or dict(aux_idx=[], atol=kpm_atol, max_moments=None, eps=None)
+        solver_options = {}
+        if o["atol"] is not None:
+            solver_options["atol"] = o["atol"]
+        if o["aux_idx"]:
+            solver_options["auxiliary_vectors"] = np.ascontiguousarray(RB[:, o["aux_idx"]])
+        if o["max_moments"] is not None:
+            solver_options["max_moments"] = o["max_moments"]
+        if o["eps"] is not None:
+            solver_options["eps"] = o["eps"]
+    with warnings.catch_warnings(record=True) as wlog:
+        warnings.simplefilter("always")
         try:
             full = block_diagonalize(H, subspace_eigenvectors=complete, **kw)
         except Exception as e:
             return ["explicit computation raised %s: %s" % (type(e).__name__, e)], 0
         try:
             if p["kpm"]:
-                impl = block_diagonalize(Hs, subspace_eigenvectors=expl, direct_solver=False, solver_options=dict(atol=kpm_atol), **kw)
+                impl = block_diagonalize(Hs, subspace_eigenvectors=expl, direct_solver=False, solver_options=solver_options, **kw)
             else:
                 impl = block_diagonalize(Hs, subspace_eigenvectors=expl, **kw)
         except Exception as e:
@@ -189,22 +214,29 @@ def compare(p, tol_rel, kpm_atol=None):
                         bound = tol_rel * (1 + np.abs(emb).max(initial=0)) * scale ** total * (1 + np.linalg.cond(R))
                         if not err <= bound:
                             fails.append("%s[%d,%d,%s]: implicit differs from the embedded explicit result by %.3g (bound %.3g)" % (name, i, j, od, err, bound))
+    if p["kpm"] and any(issubclass(w.category, RuntimeWarning) and "did not converge" in str(w.message) for w in wlog):
+        # the KPM clause promises the accuracy only when no convergence warning was emitted
+        fails = [f for f in fails if " raised " in f]
     return fails, compared
 
 
 def _run(ctx, exact, ncases, kpm_cases, as_tie):
     rng = ctx.rng
-    fails, feats, samples, total, d13 = [], set(), [], 0, 0
+    fails, feats, samples, total, d13, nkpm_aux = [], set(), [], 0, 0, 0
     N = ctx.n(3, 4)
     for c in range(ncases + kpm_cases):
         kpm = c >= ncases
         seed = rng.randrange(2**31)
-        p = make_problem(seed, exact, ctx.n(6, 9) if not kpm else 5, N if not kpm else 2, kpm=kpm)
+        p = make_problem(seed, exact, ctx.n(6, 9) if not kpm else 7, N if not kpm else 2, kpm=kpm)
         atol = 1e-4
-        fs, cmpd = compare(p, 1e-9 if not kpm else 100 * atol, kpm_atol=atol)
+        fs, cmpd = compare(p, 1e-9 if not kpm else 10 * atol, kpm_atol=atol)
         total += cmpd
-        feats.add((p["hermitian"], p["cplx"], tuple(p["sizes"]), len(p["hs"]), bool(p["fully"]), len(set(p["levels"])) < len(p["levels"]), kpm))
-        desc = dict(seed=seed, exact=exact, nmax=ctx.n(6, 9) if not kpm else 5, N=p["N"], kpm=kpm)
+        ko = p["kpm_opts"] or {}
+        feats.add((p["hermitian"], p["cplx"], tuple(p["sizes"]), len(p["hs"]), bool(p["fully"]), len(set(p["levels"])) < len(p["levels"]), kpm,
+                   len(ko.get("aux_idx", ())) > 0, ko.get("max_moments") is not None, ko.get("eps") is not None, kpm and ko.get("atol") is None))
+        if kpm:
+            nkpm_aux += len(ko.get("aux_idx", ())) > 0
+        desc = dict(seed=seed, exact=exact, nmax=ctx.n(6, 9) if not kpm else 7, N=p["N"], kpm=kpm)
         if c < 2:
             samples.append(dict(desc, hermitian=p["hermitian"], complex=p["cplx"], n=p["n"], sizes=p["sizes"], levels=p["levels"], fully=list(p["fully"])))
         if any("raised IndexError" in f for f in fs) and not p["hermitian"] and p["fully"]:
@@ -218,18 +250,19 @@ def _run(ctx, exact, ncases, kpm_cases, as_tie):
                 fails.append(dict(what=f, input=dict(oracle="implicit", **desc)))
         if len(fails) >= 10:
             break
-    rule = "distinct (hermitian, complex, explicit block sizes, #parameters, fully_diagonalize?, degenerate explicit levels, KPM?)"
+    rule = "distinct (hermitian, complex, explicit block sizes, #parameters, fully_diagonalize?, degenerate explicit levels, KPM?, auxiliary_vectors?, max_moments?, eps?, default atol?)"
     if as_tie:
-        return dict(cases=ncases + kpm_cases, nontrivial=len(feats), rule=rule, samples=samples, distribution=dict(compared_blocks=total), disagreements=fails)
+        return dict(cases=ncases + kpm_cases, nontrivial=len(feats), rule=rule, samples=samples,
+                    distribution=dict(compared_blocks=total, kpm_cases=kpm_cases, kpm_with_auxiliary_vectors=nkpm_aux), disagreements=fails)
     return dict(evaluations=ncases + kpm_cases, nontrivial=len(feats), rule=rule, samples=samples, failures=fails)
 
 
 def tie_implicit(ctx, ncases=None):
-    return _run(ctx, True, ncases or ctx.n(25, 400), 0, True)
+    return _run(ctx, True, ncases or ctx.n(25, 400), ctx.n(6, 40), True)
 
 
 def oracle_implicit(ctx, ncases=None):
-    r = _run(ctx, False, ncases or ctx.n(25, 400), ctx.n(2, 12), False)
+    r = _run(ctx, False, ncases or ctx.n(25, 400), ctx.n(8, 60), False)
     # the witness of the known finding is always evaluated
     e, inside = witness_known()
     r["evaluations"] += 1
@@ -319,7 +352,7 @@ def replay(inp):
         print("  witness:", "no exception" if e is None else "%s: %s" % (type(e).__name__, e))
         return 1 if e is not None else 0
     p = make_problem(inp["seed"], inp["exact"], inp["nmax"], inp["N"], kpm=inp.get("kpm", False))
-    fs, _ = compare(p, 1e-9 if not p["kpm"] else 1e-2, kpm_atol=1e-4)
+    fs, _ = compare(p, 1e-9 if not p["kpm"] else 1e-3, kpm_atol=1e-4)
     for f in fs:
         print("  still failing:", f)
     return 1 if fs else 0
